@@ -741,6 +741,7 @@ class Server:
         self._start_server_extra_arguments = kwargs
         self.connections = {}
         self._writers = weakref.WeakSet()
+        self._dispatchers = weakref.WeakSet()
         self.server_host = host
         self.server_port = port
         self.server = await asyncio.start_server(
@@ -806,6 +807,9 @@ class Server:
         for connection in self.connections.values():
             connection._dispatcher.cancel()
             tasks.append(connection._dispatcher)
+        # sessions which are finishing on their own are not in `connections`
+        # any more, but still wait for their tasks
+        tasks.extend(t for t in self._dispatchers if not t.done() and t not in tasks)
         logger.debug("waiting for %d tasks", len(tasks))
         if tasks:
             await asyncio.wait(tasks)
@@ -911,6 +915,7 @@ class Server:
         """
         host, port, *_ = writer.transport.get_extra_info("peername", ("", ""))
         self._writers.add(writer)
+        self._dispatchers.add(get_current_task())
         if not self.server.is_serving():
             # accepted just before `close()`: nobody would cancel this session
             logger.info("server is closed, dropping connection from %s:%s", host, port)
